@@ -221,13 +221,16 @@ PROPS = {
     },
     "C18": {
         "engine": "batchsim",
-        "level_text": "the real RPCClient / connection pool / batchConn / priority queue / send and receive loops / stream re-creation with the real Backoffer run over a SIMULATED BatchCommands stream (verif seam in internal/client: dial, connection-ready wait and stream creation; nine yield points); 2-32 callers send payload-tagged requests (sync and async API) with priorities, time-outs, contexts cancelled at seed-chosen instants, forwarding hosts, Close / CloseAddr at a seed-chosen instant; the simulator delays, reorders and regroups responses, answers unknown and duplicate ids, breaks the stream on Recv and / or Send, makes re-creation fail n times; oracle: every call returns exactly once with the tag of its own request or an allowed error class, never blocked beyond its time-out plus a stated slack, no call left blocked after Close, no panic, no goroutine left",
+        "level_text": "the real RPCClient / connection pool / batchConn / priority queue / send and receive loops / stream re-creation with the real Backoffer run over a SIMULATED BatchCommands stream (verif seam in internal/client: dial, connection-ready wait and stream creation; nine yield points); 2-32 callers send payload-tagged requests (sync and async API) with priorities, time-outs, contexts cancelled at seed-chosen instants, forwarding hosts, Close / CloseAddr at a seed-chosen instant; the simulator delays, reorders and regroups responses, answers unknown and duplicate ids, breaks the stream on Recv and / or Send, makes re-creation fail n times; a third of the runs send region-wide ResolveLock calls through the collapsing wrapper (client_collapse.go: overlapping calls of one region and transaction share one request on the wire; about half of them are merged); mode nodeadline gives 70 % of the asynchronous calls no deadline at all, so that 'returns exactly once' has to come from the library alone; oracle: every call returns exactly once with the tag of its own request or an allowed error class, never blocked beyond its time-out plus a stated slack, no call left blocked after Close, no panic, no goroutine left",
         "level_note": "trusted: the simulated stream (Send never parks because the library calls it under its try-lock; Recv parks), the echo server; about 1-2 % of runs are not bit-for-bit replayable because of Go's random choice among ready select cases inside the library (violations are reported only after two confirming replays)",
         "level": "exploration",
         "modes": [
             {"mode": "mix", "quick": {"runs": 16000}, "thorough": {"runs": 400000}},
             {"mode": "nofault", "quick": {"runs": 4000}, "thorough": {"runs": 32000}},
             {"mode": "ambig", "quick": {"runs": 4000}, "thorough": {"runs": 64000}},
+            # asynchronous calls without any deadline: "returns exactly once" has to come from the library alone
+            # (known findings F42, F43 on the unchanged tree; a request that was SENT and is lost on close is new)
+            {"mode": "nodeadline", "quick": {"runs": 4000}, "thorough": {"runs": 100000}},
         ],
         "rule": "seeded caller programs, fault plans and yield release orders; non-trivial = a call got its own response and a fault fired or a batch carried more than one request; distinct = canonical traces of dials, streams, sends, deliveries, breaks, returns The first wait for a connection may take 1-80 ms of simulated time (net.slow_connect) while the send loop holds its first batch; 15 % of the synchronous calls carry a context deadline later than their own time-out.",
         "real_vs_stub": "real code: internal/client (client.go, client_batch.go, conn_batch.go, client_async.go, conn_pool.go, priority_queue.go); stub: gRPC connection and BatchCommands stream (simulated), echo server, clock",
